@@ -1437,7 +1437,7 @@ SUBCHECKS = [
                               'gray-returned', 'mode-parse', 'mode-strio', 'mode-file', 'mode-cli-file', 'mode-cli-stdin',
                               'gen-grammar', 'gen-raw', 'gen-alphabet', 'clauses>=2', 'accepted-empty-clause'] +
                              ['gen-' + m for m in rd.MUTATORS]),
-    SubCheck('fuzz', run_fuzz, strategy=None, enumerate_cases=enum_fuzz, quick=0, thorough=0,
+    SubCheck('fuzz', run_fuzz, strategy=None, enumerate_cases=enum_fuzz, quick=0, thorough=0, opt_pass=False,
              rule="thorough: 16 atheris (libFuzzer) campaigns x 320000 runs on parse_dimacs / from_dimacs_file, 8 from an empty corpus and 8 seeded with the texts of tests/test_dimacsparser.py, fresh corpus directory under out/fuzz/C06, dictionary of DIMACS tokens, max_len 160, the reference-interpretation oracle evaluated inside the fuzz target; both tiers: the test-suite texts themselves",
              required_labels=['accepted', 'rejected-syntax']),
 ]
